@@ -151,4 +151,6 @@ class DictFinder(importlib.abc.MetaPathFinder):
 
 
 def inject():
-    sys.meta_path.insert(0, DictFinder())
+    # Idempotent: %load_ext / %reload_ext call this every time.
+    if not any(isinstance(f, DictFinder) for f in sys.meta_path):
+        sys.meta_path.insert(0, DictFinder())
